@@ -1459,3 +1459,36 @@ func verifRecurses(code int) string {
 
 // verifTagged: the failure description s names a failed statement of property tag ("C09: ...; C16: ...").
 func verifTagged(s, tag string) bool { return strings.Contains(s, tag+":") }
+
+// verifTwoKeys (C01, C05, C07): keyed members identified by two keys, several of them sharing one
+// key's value (see verifTwoKeyDocs).
+func verifTwoKeys(a, b JsonNode, options []Option) Diff { return a.Diff(b, options...) }
+
+// verifNoSwappedTwoKey: no two members of a and b together have their "a" and "b" values exchanged
+// (the recorded setkeys-multi-key-swapped-values deviation: such members share an identity).
+func verifNoSwappedTwoKey(a, b JsonNode) bool {
+	var ids [][2]float64
+	for _, d := range []JsonNode{a, b} {
+		arr, ok := d.(jsonArray)
+		if !ok {
+			return true
+		}
+		for _, m := range arr {
+			o, ok := m.(jsonObject)
+			if !ok {
+				continue
+			}
+			x, _ := o["a"].(jsonNumber)
+			y, _ := o["b"].(jsonNumber)
+			ids = append(ids, [2]float64{float64(x), float64(y)})
+		}
+	}
+	for i := range ids {
+		for j := range ids {
+			if ids[i][0] != ids[i][1] && ids[i][0] == ids[j][1] && ids[i][1] == ids[j][0] {
+				return false
+			}
+		}
+	}
+	return true
+}
